@@ -532,6 +532,12 @@ class Structure:
         self.split_in_out(self.in_list, self.out_list)
         st.split_in_out(st.in_list, st.out_list)
 
+        # the read-out must keep describing *this* solve: bind the partition of both
+        # sides now instead of reading the structures' attributes when it is called
+        in_list, in_pins, Sproc_self = list(self.in_list), dict(self.in_pins), self.Sproc
+        out_list, out_pins, Sproc_st = list(st.out_list), dict(st.out_pins), st.Sproc
+        pin_mapping = dict(pin_mapping)
+
         def solve_inter(dic: Dict[Pin, complex]) -> Tuple[np.ndarray]:
             """This function calculates the couefficient of the internal modes
 
@@ -542,15 +548,15 @@ class Structure:
                 numpy array: array of the coefficient of the input modes
                 numpy array: array of the coefficient of the output modes
             """
-            u = np.zeros(len(self.in_list), dtype=complex)
-            d = np.zeros(len(st.out_list), dtype=complex)
+            u = np.zeros(len(in_list), dtype=complex)
+            d = np.zeros(len(out_list), dtype=complex)
             for name, value in dic.items():
                 mapped = pin_mapping[name]
-                if mapped in self.in_list:
-                    u[self.in_pins[mapped]] = value
-                if mapped in st.out_list:
-                    d[st.out_pins[mapped]] = value
-            uo, do = self.Sproc.int_complete(st.Sproc, u, d)
+                if mapped in in_list:
+                    u[in_pins[mapped]] = value
+                if mapped in out_list:
+                    d[out_pins[mapped]] = value
+            uo, do = Sproc_self.int_complete(Sproc_st, u, d)
             return uo, do
 
         return solve_inter, st.in_pins
